@@ -1672,8 +1672,13 @@ func c09JsStmtModelStage(c *Ctx) error {
 			continue
 		}
 		items := h.DecodeListReply(b)
-		if len(items) != 3 {
+		if len(items) != 4 {
 			continue
+		}
+		if string(items[3]) == "1" {
+			st.Tag("guard(js_print_relex_partial)=holds")
+		} else {
+			st.Tag("guard(js_print_relex_partial)=fails")
 		}
 		st.Count(p.src, true)
 		out, merr, crash := c01Minify(p.src, p.ver, true)
